@@ -17,8 +17,8 @@ import sys
 import time
 
 SCRATCH = "/work/repo-R-C14"
-VERIF = os.path.dirname(os.path.dirname(os.path.abspath(__file__)))
-WORK = "/tmp/c14-variants"
+VERIF = os.environ.get("C14_VERIF") or os.path.dirname(os.path.dirname(os.path.abspath(__file__)))   # C14_VERIF: another checkout of the verification repo (e.g. the state before the review)
+WORK = os.environ.get("C14_WORK", "/tmp/c14-variants")
 
 BODY_START = "    if hop is None:\n        hop = duration\n"
 LOOP = '''    num_segments = math.ceil(clip.duration / hop)
